@@ -10,7 +10,7 @@ from verif.props.c05 import view
 
 LEVEL = "model_checking"
 BOUNDS = {"programs": "catalogue", "requests": "Update(S) with/without argument change; Regenerate(all|none|site) where accepted; IndexRequest(i symbolic, Update|Regenerate) on vmap/scan; StaticRequest({addr: Update|Regenerate|IndexRequest}) on static programs; DiffAnnotate(identity) and EmptyRequest wrappers",
-          "chain": "forward edit then the returned backward request (one round trip)", "array_length": "<=3"}
+          "chain": "forward edit then the returned backward request (one round trip); also starting from a trace that went through a pytree flatten/unflatten (what a jax.jit boundary does)", "array_length": "<=3"}
 ASSUMPTIONS = ["the backward edit is applied with the original argument values tagged like the forward change", "index positions 0<=i<n"]
 OUTSIDE = ["chains longer than one round trip", "request kinds a combinator rejects with NotImplementedError/assert (not accepted requests)"]
 
@@ -35,9 +35,12 @@ def obligations(tier, seed):
         ex, ex2 = P.example_vals(), gfi.perturb_vals(P)
         args2 = jax.tree_util.tree_map(lambda x: x + 0.25 if jnp.issubdtype(x.dtype, jnp.floating) else x, P.args)
 
-        def add(name, mkreq, chg=False, extra=(), extra_assume=lambda *e: [], note=""):
+        def add(name, mkreq, chg=False, extra=(), extra_assume=lambda *e: [], note="", roundtrip=False):
             def f(key, args, vals, vals2, args2, *e, P=P):
                 tr0, _ = P.gf.importance(key, P.chm(vals), args)
+                if roundtrip:  # what crossing a jax.jit boundary does to a trace: flatten and rebuild the pytree (dict keys come back sorted)
+                    leaves, treedef = jax.tree_util.tree_flatten(tr0)
+                    tr0 = jax.tree_util.tree_unflatten(treedef, leaves)
                 req = mkreq(vals2, *e)
                 if chg:
                     return round_trip(P, key, tr0, req, Diff.unknown_change(args2), Diff.unknown_change(args))
@@ -52,6 +55,9 @@ def obligations(tier, seed):
                 for chg in (False, True):
                     add(f"update{list(sub)}{'+args' if chg else ''}", lambda v2, sub=sub, P=P: Update(P.chm(v2, subset=sub)), chg,
                         note="forward Update, then the returned backward request restores choices/score/retval with weight -w")
+            for chg in (False, True):
+                add(f"update[all]{'+args' if chg else ''}@pytree-roundtrip", lambda v2, P=P: Update(P.chm(v2)), chg, roundtrip=True,
+                    note="the trace first crosses a jit-like boundary (pytree flatten/unflatten), then forward Update and backward request as above")
             add("diffannotate(update-all)", lambda v2, P=P: Update(P.chm(v2)).dimap(pre=lambda a: a, post=lambda r: r))
             add("empty+args", lambda v2: EmptyRequest(), True)
         if "regenerate" in P.supports:
